@@ -50,8 +50,19 @@ pub fn enum_bases(tier: Tier) -> u64 {
         Tier::Thorough => 64,
     }
 }
+/// Base files whose every truncation is tried (two, resp. six, per reader).
+pub fn trunc_bases(tier: Tier) -> u64 {
+    crate::gen_load::SWEEP_KINDS.len() as u64
+        * match tier {
+            Tier::Quick => 2,
+            Tier::Thorough => 6,
+        }
+}
+pub fn trunc_runs(tier: Tier) -> u64 {
+    trunc_bases(tier) * crate::gen_load::TRUNC_QUOTA
+}
 pub fn enum_runs(tier: Tier) -> u64 {
-    enum_bases(tier) * crate::gen_load::ENUM_QUOTA
+    trunc_runs(tier) + enum_bases(tier) * crate::gen_load::ENUM_QUOTA
 }
 
 pub fn generate(prop: &str, tier: Tier, seed: u64, run: u64) -> Trace {
@@ -74,7 +85,11 @@ pub fn generate(prop: &str, tier: Tier, seed: u64, run: u64) -> Trace {
         "C09" => crate::gen_term::gen_term("C09", &mut rng, run, thorough),
         "C10" if run % 4 == 3 => crate::gen_load::gen_load("C10", &mut rng, run, thorough),
         "C10" => crate::gen_term::gen_term("C10", &mut rng, run, thorough),
-        "C02" if run < enum_runs(tier) => crate::gen_load::gen_load_enum("C02", seed, run / crate::gen_load::ENUM_QUOTA, run % crate::gen_load::ENUM_QUOTA),
+        "C02" if run < trunc_runs(tier) => crate::gen_load::gen_load_enum("C02", seed, run / crate::gen_load::TRUNC_QUOTA, run % crate::gen_load::TRUNC_QUOTA, true),
+        "C02" if run < enum_runs(tier) => {
+            let r = run - trunc_runs(tier);
+            crate::gen_load::gen_load_enum("C02", seed, r / crate::gen_load::ENUM_QUOTA, r % crate::gen_load::ENUM_QUOTA, false)
+        }
         "C02" => crate::gen_load::gen_load("C02", &mut rng, run, thorough),
         "C20" => crate::gen_gfx::gen_c20(&mut rng, run, thorough),
         "C08" => crate::edit::gen_edit(&mut rng, run, thorough),
